@@ -337,9 +337,10 @@ def can_fast_forward(repo: "BaseRepo", c1: ObjectID, c2: ObjectID) -> bool:
     if c1 == c2:
         return True
 
-    # Algorithm: Find the common ancestor
+    # Algorithm: c1 is an ancestor of c2 exactly if it is one of their common
+    # ancestors that _find_lcas reports
     try:
-        min_stamp = lookup_stamp(c1)
+        lookup_stamp(c1)
     except KeyError:
         # If c1 doesn't exist in the object store, we can't determine fast-forward
         # This can happen in shallow clones where c1 is a missing parent
@@ -355,10 +356,9 @@ def can_fast_forward(repo: "BaseRepo", c1: ObjectID, c2: ObjectID) -> bool:
         c1,
         [c2],
         lookup_stamp,
-        min_stamp=min_stamp,
         shallows=parents_provider.shallows,
     )
-    return lcas == [c1]
+    return c1 in lcas
 
 
 def independent(repo: "BaseRepo", commit_ids: Sequence[ObjectID]) -> list[ObjectID]:
